@@ -368,6 +368,10 @@ func (a *c05) checkComparator(s *c05Sorter) {
 				chk(zi == -1 && zj == -1, "C05.S8-order", base+" return chronological order", a.pos(ret), "chronological comparison only when both Next are set", msgCmp)
 				continue
 			}
+			if lossy := a.lossyCompare(ret.Results[0], which); lossy != "" {
+				r.Violation("C05.S8-order", base+" return chronological order", a.pos(ret), "the comparator compares a lossy projection of the activation instants ("+lossy+") instead of the instants: two entries whose Next fall into the same unit compare equal and keep their insertion order, entries[0] need not be the earliest, the timer is armed for the later one and the earlier activation is slept through")
+				continue
+			}
 			if !s.intForm && a.chronoKind(ret.Results[0], which) == -1 {
 				r.Violation("C05.S8-order", base+" return chronological order", a.pos(ret), "the comparator orders the entries by Next in REVERSE (later first): entries[0] is the latest activation, the timer is armed for it and every earlier activation is slept through")
 				continue
@@ -867,4 +871,46 @@ func (a *c05) chronoSign(v ssa.Value, which func(ssa.Value) int, wantIJ int64) b
 		}
 	}
 	return true
+}
+
+// lossyCompare: v orders the two elements by a precision-losing projection of
+// their Next (Unix seconds/milliseconds/microseconds, Truncate, Round, a
+// calendar component) rather than by the instants; returns the projection.
+func (a *c05) lossyCompare(v ssa.Value, which func(ssa.Value) int) string {
+	cmp, ok := decodeCond(v, true)
+	if !ok {
+		return ""
+	}
+	proj := func(x ssa.Value) (string, int) {
+		call, ok := x.(*ssa.Call)
+		if !ok || call.Call.IsInvoke() || len(call.Call.Args) == 0 {
+			return "", 0
+		}
+		for _, n := range []string{"Unix", "UnixMilli", "UnixMicro", "Truncate", "Round", "Second", "Minute", "Hour", "Day", "YearDay", "Year"} {
+			if c05IsTimeMethod(call, n) {
+				if w := which(call.Call.Args[0]); w != 0 {
+					return n, w
+				}
+			}
+		}
+		return "", 0
+	}
+	// direct integer comparison of two projections, or Before/After/Compare of two projected times
+	px, wx := proj(cmp.X)
+	py, wy := proj(cmp.Y)
+	if px != "" && px == py && wx != wy {
+		return "Next." + px + "()"
+	}
+	if call, ok := cmp.X.(*ssa.Call); ok && !call.Call.IsInvoke() && len(call.Call.Args) == 2 {
+		for _, n := range []string{"Compare", "Sub"} {
+			if c05IsTimeMethod(call, n) {
+				pa, wa := proj(call.Call.Args[0])
+				pb, wb := proj(call.Call.Args[1])
+				if pa != "" && pa == pb && wa != wb {
+					return "Next." + pa + "(..)"
+				}
+			}
+		}
+	}
+	return ""
 }
